@@ -17,11 +17,11 @@ RULE = ('history monitor: a case is a script of 2-4 inference() calls on ONE man
 ASSUMPTIONS = ['workers share no memory (forked copies): completion order is the only schedule dimension',
                'a hung worker is simulated by a sleeping worker whose join(timeout) returns at once']
 TRUSTED = []
-FLOOR = {'quick': 150, 'thorough': 1500}
+FLOOR = {'quick': 60, 'thorough': 600}
 BUDGET = {'quick': 110, 'thorough': 1500}
 N = {'quick': 420, 'thorough': 6000}
 REQUIRED = {'quick': {'parallel_calls': 60, 'completion_orders': 10, 'hung_worker_calls': 10,
-                      'second_or_later_calls': 200},
+                      'second_or_later_calls': 80},
             'thorough': {'parallel_calls': 600, 'completion_orders': 50, 'hung_worker_calls': 100,
                          'second_or_later_calls': 2000}}
 RECYCLE = 60
